@@ -209,6 +209,9 @@ impl St {
             if let Some(c) = p.objs.arcs[arc] {
                 self.cell_write(t, c, m);
             }
+            if p.objs.arc_panic.get(arc).copied().unwrap_or(false) {
+                self.user_panic = Some(4242);
+            }
             if let Some(Some(a)) = p.objs.arc_rmw.get(arc) {
                 self.atomics[*a] = self.atomics[*a].wrapping_add(1);
             }
@@ -754,6 +757,16 @@ pub fn explore(p: &Program, m: Mode, max_states: u64) -> ScResult {
         let _ = any_spurious;
         if !any {
             if s.all_done() {
+                // handles still held are released by the harness at the end of the iteration; if
+                // that drops a payload whose Drop panics, the iteration fails there
+                let final_drop_panics = (0..s.arc_cnt.len()).any(|a| {
+                    let held = s.handle.iter().filter(|h| **h == Some(a as u8)).count() as u32;
+                    p.objs.arc_panic.get(a).copied().unwrap_or(false) && held > 0 && s.arc_cnt[a] == held
+                });
+                if final_drop_panics {
+                    res.user_panics.insert(4242);
+                    continue;
+                }
                 let o = s.outcome(p);
                 let l = s.leaks();
                 if l.is_empty() {
